@@ -112,6 +112,23 @@ class C02(Check):
         if self.tier == "quick" and wk != ("toy",) and (sum(len(a) for a in planted) + len(planted[0])) % 2 != self.seed % 2:
             return      # quick: deviations on a seed-rotated half of the generated world's plantings
         gene = worlds.gene_of(wk, build)
+        if not devs:
+            # the same evidence judged under ANOTHER gene structure than the planted one (one copy more, one copy
+            # fewer, one configuration exchanged): configurations may be left without any candidate allele
+            alts = {tuple(sorted(struct + ("1",)))}
+            for i in range(len(struct)):
+                if len(struct) > 1:
+                    alts.add(tuple(sorted(struct[:i] + struct[i + 1:])))
+                for c in sorted(gene.cn_configs):
+                    if c != struct[i] and c != gene.deletion_allele() and gene.cn_configs[c].alleles:
+                        alts.add(tuple(sorted(struct[:i] + (c,) + struct[i + 1:])))
+            alts.discard(tuple(sorted(struct)))
+            for k, alt in enumerate(sorted(alts)):
+                if self.tier == "quick" and wk != ("toy",) and k % 3 != (self.seed + len(planted)) % 3:
+                    continue
+                yield (f"cn={alt}", (wk, build, struct, planted, (("cn", alt),), gap))
+        if devs and devs[0][0] == "cn":
+            return
         base = self._base_table(gene, struct, planted)
         cells = []
         core_sites = sorted({m[0] for m in gene.mutations if tables.is_core(gene, m)})
@@ -151,9 +168,14 @@ class C02(Check):
         wk, build, struct, planted, devs, gap = st
         repo.reset_debug_store()
         gene = worlds.gene_of(wk, build)
+        cn_struct = next((d[1] for d in devs if d[0] == "cn"), None)
+        devs = tuple(d for d in devs if d[0] != "cn")
         table = tables.apply_deviations(self._base_table(gene, struct, planted), devs)
         p = Profile("verif", gap=gap)
         cov = tables.to_coverage(gene, p, table)
+        if cn_struct is not None:
+            struct = cn_struct
+            devs = devs + (("cn", 0),)      # no noise-free clause for a foreign structure
         cn = CNSolution(gene, 0, list(struct))
         if (len(planted) + len(devs) + int(gap * 10) + (devs[0][1] if devs else 0)) % 3 == 0:
             # as genotype() does when several structures compete: the SAME evidence object is first solved under
